@@ -14,6 +14,8 @@ CLASSES = {
  "KF-C01-cmp-16bit": "unsigned 16-bit > and <= decided from the sign of the difference",
  "KF-C01-cmp-elem-reg": "array element compared with the register that indexes/holds the other operand: emitted TXA;STA cctmp;CPX cctmp compares the register with itself",
  "KF-C01-two-calls": "two function results in one expression: the first result, returned in A, is not kept live across the second call",
+ "KF-C01-deref-y": "*p in a statement whose other operand is indexed by Y (or is *p / p[Y] itself): the dereference loads Y with 0 after saving it in cctmp, and the saved index is restored too late or not at all",
+ "KF-C01-opt-shift-mem": "R = s; s <<= 1 (or >>= 1); R = s at -O1: ASL/ROL/LSR/ROR on memory do not invalidate the optimiser's belief that the register holds s; the reload is removed (also C02)",
  "KF-C01-stale-flags-shift16": "after a 16-bit shift statement the generator still believes the flags describe the previously tested variable; the following if/! uses stale flags",
 }
 
@@ -39,11 +41,16 @@ def classify(sig, fam):
         return None
     if fam == "F5b":
         return "KF-C01-two-calls"
+    if fam == "F9":
+        return "KF-C01-deref-y" if ("(*P)" in sig or "P[" in sig) else None
+    if fam == "F8":
+        return "KF-C01-opt-shift-mem" if re.search(r"u16 (<<|>>)= 1", sig) else None
     if fam == "F7b":
         return "KF-C01-stale-flags-shift16"
     return None
 
 
+PROP_OF = lambda cid: pid
 kf = json.load(open(os.path.join(V, "known_findings.json")))
 byid = {f["id"]: f for f in kf["findings"]}
 unclassified = []
